@@ -256,3 +256,10 @@ CHECKS["C07"]["note"] = "Decided per class of literal content and position, not 
 for _e in ENGINES:
     if _e["name"] == "E7 linemodel":
         _e["serves_properties"] = ["C03", "C05", "C07", "C08"]
+
+CHECKS["C05"]["text"] += " Seam to the fixed points (O-canon / O-glue / O-break): an edge cover of every fragment spec NFA (about 1500 sentences: all word classes in all the contexts the fixed points explore) is rendered as scripts - one blank between words; commas and parentheses glued to their neighbours; a line break after every comma / opening parenthesis and before every closing one - and pushed through parse_data evaluated abstractly; the text reaching the grammar must be cut by PLY's scanner (rules tried in PLY's order, t_ignore skipped) into the same lexemes in all three renderings, namely the words the fixed points assume. This discharges, for the fragments' own sentences, the assumption 'words are separated as pre_process_data intends' that C01, C02, C04, C06, C07, C09, C11, C17, C18 rest on."
+CHECKS["C08"]["text"] += " Whole-script level (O-script): parse_data evaluated abstractly as a whole (its own line loop, the more-lines argument, the code after the loop) on exemplar scripts with a comment of each form inserted at every line position, once and again at the end."
+_FRAG_NOTE_SEAM = " The word-separation assumption is discharged for the fragments' own sentences by C05's O-canon / O-glue / O-break (E7)."
+for _k in ("C01", "C02", "C04", "C06", "C09", "C11", "C17", "C18"):
+    if _k in CHECKS and "separated as pre_process_data intends" in CHECKS[_k]["note"]:
+        CHECKS[_k]["note"] += _FRAG_NOTE_SEAM
